@@ -55,15 +55,28 @@ pub fn check(cfgc: &CtxCfg, prelude_seed: u64, prelude_len: usize, req: &[u8], r
         0x06 => (req[11] as usize) < n_sets,
         _ => false,
     };
-    let m = Model::new(cfgc);
+    let mut m = Model::new(cfgc);
     let mut prng = Rng::new(prelude_seed);
     with_contexts(std::slice::from_ref(cfgc), |ctxs| {
         let ctx = &mut ctxs[0];
         for _ in 0..prelude_len {
             let l = pick_letter(&mut prng, &PRELUDE);
             let op = instantiate(l, &mut prng, &m);
+            m.apply_non_packet(&op);
             exec(ctx, &op, 80, 7);
         }
+        // a request that asks about THIS endpoint's identity: "uuid:<cmd>" requests are completed here
+        // with the UUID the prelude installed
+        let req_owned: Vec<u8>;
+        let req: &[u8] = if req.len() == 13 + 17 && req[10] == 0x10 && req[11..27] == [0xEE; 16] {
+            let mut r = req.to_vec();
+            r[11..27].copy_from_slice(&m.uuid);
+            crate::refmodel::forge::fix_pec(&mut r);
+            req_owned = r;
+            &req_owned
+        } else {
+            req
+        };
         let mut obs = exec(ctx, &Op::Process(req.to_vec()), rb_len(prelude_seed), prelude_seed ^ 0xC12);
         // a retry: one time in three the byte-identical request is processed a second (and third)
         // time and the LAST response is the one judged
@@ -181,6 +194,13 @@ fn make_request(form: u8, rng: &mut Rng, own: u8, src: u8, iid: u8, nsets: usize
         8 => ctrl_request(own, src, iid, false, 0x01, &[if rng.chance(1, 2) { 2 } else { rng.range(4, 255) as u8 }, rng.range(1, 0xFE) as u8]),
         9 => ctrl_request(own, src, iid, false, 0x06, &[rng.range(nsets as u64, 255) as u8]),
         10 => ctrl_request(own, src, iid, false, *rng.pick(&[0x00u8, 0x07, 0x08]), &[rng.byte(), rng.byte(), rng.byte()][..match rng.below(2) { 0 => 1, _ => 3 }]),
+        11 if rng.chance(1, 2) => {
+            // Resolve UUID naming the responder's own UUID (placeholder 0xEE.., filled in by check()
+            // with the UUID the prelude installed), entry handle 0 or random
+            let mut d = vec![0xEEu8; 16];
+            d.push(if rng.chance(1, 2) { 0 } else { rng.byte() });
+            ctrl_request(own, src, iid, false, 0x10, &d)
+        }
         _ => {
             let cmd = rng.range(0x09, 0xFF) as u8;
             let k = rng.below(5) as usize;
